@@ -141,6 +141,7 @@ func c18(r *core.Run) {
 
 	c18Migrate(r)
 	c18Codec(r)
+	c18FreshTarget(r)
 	c07JSONSave(r, "C18.ATOMICSAVE")
 }
 
@@ -390,4 +391,54 @@ func c18Codec(r *core.Run) {
 		}
 		r.Check(found, "C18.CODEC", "json-array-key("+t[:strings.LastIndex(t, ":")]+")", 0, "array key \""+name+"\" is the key the migration looks for", "the signature array is written under key \""+name+"\" but the migration looks for "+strings.Join(migKeys, "/"))
 	}
+}
+
+
+// c18FreshTarget: a decoder merges into its target — fields absent from the input keep their previous value and
+// slices reuse the previous backing array. A signature decoded inside a loop therefore needs a target that is
+// allocated in that iteration; a variable declared outside the loop carries the previous element's content
+// into the next one (and into every shallow copy taken of it).
+func c18FreshTarget(r *core.Run) {
+	p := r.P
+	n := 0
+	for _, rel := range []string{storeRel, "pkg/storage/jsondb"} {
+		for _, fn := range p.FuncsIn(rel) {
+			core.InstrsOf(fn, func(in ssa.Instruction) {
+				c := core.CallOf(in)
+				if c == nil {
+					return
+				}
+				var target ssa.Value
+				switch name := core.CalleeName(c); {
+				case name == "(*encoding/json.Decoder).Decode" || name == "(*encoding/gob.Decoder).Decode":
+					target = c.Args[1]
+				case name == "encoding/json.Unmarshal":
+					target = c.Args[1]
+				default:
+					if callee := core.StaticCallee(c); callee != nil && p.IsProdFunc(callee) && len(c.Args) == 2 && strings.HasPrefix(callee.Name(), "decode") {
+						target = c.Args[1]
+					}
+				}
+				if target == nil {
+					return
+				}
+				target = core.Unwrap(target)
+				if !core.IsNamed(core.Deref(target.Type()), detPath(p), "Signature") {
+					return
+				}
+				h := core.LoopHeaderOf(in.Block())
+				if h == nil {
+					return
+				}
+				n++
+				al, isAlloc := target.(*ssa.Alloc)
+				fresh := isAlloc && al.Block() != nil && h.Dominates(al.Block()) && core.LoopHeaderOf(al.Block()) != nil && al.Block() != h
+				if isAlloc && al.Block() == h {
+					fresh = true // allocated in the header: once per iteration as well
+				}
+				r.Check(fresh, "C18.FRESH", core.FuncName(fn)+"#decode-target-per-iteration", in.Pos(), "the signature decoded in this loop is a variable allocated in the same iteration", "a signature is decoded inside a loop into a variable that outlives the iteration: optional fields missing in one entry keep the previous entry's values and slices share a backing array, so the stored signatures are not field for field what the file says")
+			})
+		}
+	}
+	r.Floor("C18.FRESH", "signature decodes inside loops", n, 3)
 }
